@@ -13,7 +13,7 @@ EXTRA = {
  "X08": dict(
   title="the genome self-check accepts every well-formed non-empty genome and rejects exactly what its steps say; traits, genes, control genes, innovation records and the enum tables hold what their constructors were given",
   text="(1) Genome.verify() is specified in spec/Validation.tla clause by clause as the code performs it (three emptiness tests; per gene the scan of the node list for both end-point ids, in before out; the node-order loop with its running id; the pairwise duplicate test that skips a gene compared with itself; the two-disables-in-a-row loop that only runs above 500 nodes) NEXT TO its definition (first failing clause) and NEXT TO WellFormed of spec/Genome.tla, evaluated on the genome decorated with object identities the way the harness projector does. TLC checks on every genome in scope: loop = definition; no false rejection (WellFormed and non-empty and not the >500-node disabled rule => accepted) and the only rejections of well-formed genomes are no_genes / no_traits / two_disabled; end-point ids: rejected iff EndpointsOwn is broken; node order: rejected iff some id DESCENDS (two equal ids in a row pass, so NodesAscending is only partly covered); duplicates: rejected iff two DISTINCT gene objects carry the same link; the verdict is a function of node ids, link keys, gene-object identity and - above the limit - enabled flags only (innovation numbers, roles, trait references, weights and where the pointers lead are never looked at). Population.Verify(): the error of the first failing genome, (true, nil) otherwise, also without organisms. (2) NewTrait (8 zeros, id 0), NewTraitCopy (equal, independent parameters), NewTraitAvrg (element-wise mean n/16 of n/8 operands, id of the first, error on different lengths, commutative apart from the id, between its operands), Trait.Mutate as the loop of the code over an explicit draw script (one uniform per parameter; if it EXCEEDS prob an integer for the sign and a uniform m; p + sign*m*power clamped at 0) next to its element-wise definition with the number of draws consumed, frame, bounds and monotonicity, Trait.String from the %f rendering of eighths. (3) NewGene / NewGeneWithTrait / NewConnectionGene / NewGeneCopy as the gene records of Genome.tla (copy: weight and recurrence from the link, innovation, mutation number and ENABLED flag from the gene, ends and trait as given; a copy onto the same ends and trait is the same gene), NewMIMOGene / NewMIMOGeneCopy and hasIntersection (IO nodes = inputs then outputs of the control node at construction; a copy takes the IO nodes of ITS control node), the three innovation constructors as LinkRec / NodeRec of Genome.tla with the type codes, NeuronTypeName / NeuronTypeByName / NodeTypeName over all 256 codes and a palette of names (one-to-one, round trip, unknown -> error with code 127), node type from neuron type, the supported genome encodings (1, 2; anything else ErrUnsupportedGenomeEncoding from reader and writer). Every case is replayed on real objects: verify() through the export shim VerifVerify and Population.Verify() on a one-genome population, with the WellFormed clauses re-evaluated by the replayer ON THE REAL OBJECTS and compared with the specification's clause table.",
-  note="Exhaustive within (quick): every node list up to 3 over ids {1 input, 2 hidden, 3 output} (any order, repetitions) x every gene list up to 2 over innovation {1,2} x source {1,2} x target {1,2,3} x recurrent flag, one trait; 270 trait-list / trait-reference variants on a sound structure (no trait, two traits, swapped, duplicate trait id, nil / dangling / foreign trait objects); 2520 wiring variants (end points that are foreign objects with the right id, one gene object listed twice); all 16 enabled patterns of 4 genes at 3, 500 and 501 nodes plus broken genomes at 503 nodes; populations up to 3 over a palette of 5 genomes. Thorough: ids {1..4 bias} and innovation {1,2,3} with source 1..3, gene lists up to 3 over a 16-gene pool (MC_Validation_genes3_thorough), populations up to 4. Traits: every parameter vector up to length 2 (3) over {-3,0,1,8(,21)}/8, the 8 rotations of an 8-vector covering every residue mod 8 and both signs, constant 8-vectors; avg on all pairs; Mutate for power {0,.5,1,2(,8)} x prob {-1/8,0,.5,1,9/8}: on the model every draw script over the grid for vectors up to 2 and two strided script families through all grid draws for longer ones; on the code 24 learned seeds per case (math/rand cannot be stubbed: the source is seeded, read as the specification says Mutate consumes it, seeded again, the real Mutate is called, the next stream value must be the predicted one); the expected parameter is the specification's element rule evaluated on the learned draws in exact rationals (power is a power of two: the code rounds once, the expectation is the rational rounded to nearest, comparison ==) and must lie inside the TLC-generated row between the neighbouring grid points. OBSERVATIONS (coverage.validation.observations and verify_detection, not violations): (a) verify() is weaker than WellFormed: unsorted or repeated innovation numbers, a link into a sensor, dangling or foreign trait references, end points that are foreign objects with a matching id, an id index that returns another node, two nodes with the SAME id (only a descent is an error) and one gene object listed twice (the duplicate test compares distinct objects only) are all accepted; (b) verify() rejects well-formed genomes without genes or without traits, and - only above 500 nodes - with two consecutive disabled genes, which two add-node mutations of neighbouring genes produce legitimately (the code comments `not necessarily a bad sign`); below 501 nodes that loop is dead code; (c) Trait.Mutate perturbs a parameter when the draw is GREATER than traitParamMutProb, i.e. the option is the probability of leaving a parameter alone (as in the original C++ NEAT): 1 never mutates, 0 always; (d) multipoint crossover hands the PARENT's MIMO control gene object to the child (seen while reaching hasIntersection through crossover). MIMOControlGene.hasIntersection is unexported: it is compared directly only when the harness is built with the proposed shim harness/shim_x08.go.txt (-tags x08shim); without it the predicate is observed through multipoint crossover for the probe sets that contain the genome's sensor and output (672 of 798 cases). Error classes of verify() are recognised by message fragments. Not covered: Gene.String / MIMOControlGene.String, genomeEncodingFromFileName (unexported; file-name dispatch is in X02/C15 territory), negative or zero node ids, NaN parameters. Trusted: TLC, math/rand determinism under rand.Seed, math/big.",
+  note="Exhaustive within (quick): every node list up to 3 over ids {1 input, 2 hidden, 3 output} (any order, repetitions) x every gene list up to 2 over innovation {1,2} x source {1,2} x target {1,2,3} x recurrent flag, one trait; 270 trait-list / trait-reference variants on a sound structure (no trait, two traits, swapped, duplicate trait id, nil / dangling / foreign trait objects); 2520 wiring variants (end points that are foreign objects with the right id, one gene object listed twice); all 16 enabled patterns of 4 genes at 3, 500 and 501 nodes plus broken genomes at 503 nodes; populations up to 3 over a palette of 5 genomes. Thorough: ids {1..4 bias} and innovation {1,2,3} with source 1..3, gene lists up to 3 over a 24-gene pool x node lists up to 3 (MC_Validation_genes3_thorough), populations up to 4. Traits: every parameter vector up to length 2 (3) over {-3,0,1,8(,21)}/8, the 8 rotations of an 8-vector covering every residue mod 8 and both signs, constant 8-vectors; avg on all pairs; Mutate for power {0,.5,1,2(,8)} x prob {-1/8,0,.5,1,9/8}: on the model every draw script over the grid for vectors up to 2 and two strided script families through all grid draws for longer ones; on the code 24 learned seeds per case (math/rand cannot be stubbed: the source is seeded, read as the specification says Mutate consumes it, seeded again, the real Mutate is called, the next stream value must be the predicted one); the expected parameter is the specification's element rule evaluated on the learned draws in exact rationals (power is a power of two: the code rounds once, the expectation is the rational rounded to nearest, comparison ==) and must lie inside the TLC-generated row between the neighbouring grid points. OBSERVATIONS (coverage.validation.observations and verify_detection, not violations): (a) verify() is weaker than WellFormed: unsorted or repeated innovation numbers, a link into a sensor, dangling or foreign trait references, end points that are foreign objects with a matching id, an id index that returns another node, two nodes with the SAME id (only a descent is an error) and one gene object listed twice (the duplicate test compares distinct objects only) are all accepted; (b) verify() rejects well-formed genomes without genes or without traits, and - only above 500 nodes - with two consecutive disabled genes, which two add-node mutations of neighbouring genes produce legitimately (the code comments `not necessarily a bad sign`); below 501 nodes that loop is dead code; (c) Trait.Mutate perturbs a parameter when the draw is GREATER than traitParamMutProb, i.e. the option is the probability of leaving a parameter alone (as in the original C++ NEAT): 1 never mutates, 0 always; (d) multipoint crossover hands the PARENT's MIMO control gene object to the child (seen while reaching hasIntersection through crossover). MIMOControlGene.hasIntersection is unexported: it is compared directly only when the harness is built with the proposed shim harness/shim_x08.go.txt (-tags x08shim); without it the predicate is observed through multipoint crossover for the probe sets that contain the genome's sensor and output (672 of 798 cases). Error classes of verify() are recognised by message fragments. Not covered: Gene.String / MIMOControlGene.String, genomeEncodingFromFileName (unexported; file-name dispatch is in X02/C15 territory), negative or zero node ids, NaN parameters. Trusted: TLC, math/rand determinism under rand.Seed, math/big.",
   technique=B2),
 }
 
